@@ -331,6 +331,21 @@ def run_check(prop, tier, seed, replay=None):
         raise
     except Exception as e:
         ctx.broke('search', 'oracle-exception', traceback.format_exc()[-3000:])
+    # every recorded finding is re-run on the real code on every run: a `finding` that still fails prints
+    # KNOWN-FINDING; a `fixed` entry that fails again is an ordinary violation (a fixed entry suppresses nothing)
+    for k in ctx.known:
+        if not k.get('replay') or k['id'] in ctx.known_hit:
+            continue
+        try:
+            fails = bool(mod.replay(ctx, k['replay']))
+        except Exception as e:
+            fails = None
+            ctx.notes.setdefault('known_replay_errors', {})[k['id']] = f'{type(e).__name__}: {e}'
+        ctx.notes.setdefault('known_replays', {})[k['id']] = dict(kind=k['kind'], fails=fails)
+        if fails and k['kind'] == 'finding':
+            ctx.known_hit[k['id']] = dict(entry=k, n=1, example=k['replay'])
+        elif fails and k['kind'] == 'fixed':
+            ctx.fail(dict(k['signature'], regression_of=k['id']), 'a repaired defect is back: ' + k['what'], k['replay'])
     # report
     nviol = 0
     for kid, hit in sorted(ctx.known_hit.items()):
